@@ -363,17 +363,13 @@ class Cover(Device):
 
     def _process_updown_from_bus(self) -> None:
         """Follow an up/down command that was not sent by `set_position()`."""
-        if (
-            not self.is_opening()
-            and self.updown.value == RemoteValueUpDown.Direction.UP
-        ):
+        # also when already moving in that direction - a positioned move (with its
+        # auto stopper just cancelled) now runs to the end position
+        if self.updown.value == RemoteValueUpDown.Direction.UP:
             self._start_position_update(
                 target_position=self.travelcalculator.position_open
             )
-        elif (
-            not self.is_closing()
-            and self.updown.value == RemoteValueUpDown.Direction.DOWN
-        ):
+        elif self.updown.value == RemoteValueUpDown.Direction.DOWN:
             self._start_position_update(
                 target_position=self.travelcalculator.position_closed
             )
